@@ -555,8 +555,15 @@ def _make_evalable_objectives_from_formula(
         no_relation = []
         others = {}
         for t in terms:
+            dropped = 1
             if transform_terms:
+                original = t
                 t = _try_replace_unknowns(t)
+                if t is not original and t != 0:
+                    # The not-yet-enumerated factor that was replaced by 1. Terms may
+                    # only be summed back together if they were scaled by the same
+                    # factor: a*s + b < a'*s + b' for s = 1 says nothing about other s.
+                    dropped = simplify(original / t)
             try:
                 if not t.free_symbols & symbols_enumerated:
                     continue
@@ -565,14 +572,14 @@ def _make_evalable_objectives_from_formula(
             if t.free_symbols.isdisjoint(symbols_enumerated):
                 no_relation.append(t)
             else:
-                others.setdefault(fzs(t.free_symbols - symbols_enumerated), []).append(
-                    t
-                )
+                others.setdefault(
+                    (fzs(t.free_symbols - symbols_enumerated), dropped), []
+                ).append(t)
 
         # Charge for symbols that differ between the terms, because getting rid of those
         # would let us do fewer partitions.
-        for ot in others:
-            for ot2 in others:
+        for ot, _ in others:
+            for ot2, _ in others:
                 meddlers = ot - ot2
                 for s in meddlers:
                     meddling_symbols[s] += 1 / len(others) / len(meddlers)
@@ -584,7 +591,7 @@ def _make_evalable_objectives_from_formula(
         for n in no_relation:
             for s in n.free_symbols:
                 without_s = fzs(set(n.free_symbols) - {s})
-                if without_s not in others:
+                if without_s not in [ot for ot, _ in others]:
                     meddling_symbols[s] -= 10
 
         # Try to re-join any others if we can to reduce the number of terms. However, if
